@@ -89,10 +89,11 @@ class ClassInfo:
 class SObj:
     """Heap object of a repository class (or an ad-hoc record when cls is None)."""
 
-    def __init__(self, cls, fields=None, tag=None):
+    def __init__(self, cls, fields=None, tag=None, partial=False):
         self.cls = cls
         self.fields = dict(fields or {})
         self.tag = tag
+        self.partial = partial      # a field record written by a contract (not built by the real constructor)
 
     def __repr__(self):
         return f"<SObj {self.cls.name if self.cls else self.tag}>"
@@ -609,6 +610,9 @@ class Interp:
                     fn = self.libattr.get((lb.path, name))
                     if fn is not None:
                         return fn(self, obj)
+            if obj.partial:
+                # the contract's record of this object does not model the field: undecided, never a violation
+                raise Unsupported(f"field '{name}' is not modelled in the contract's record of {obj.cls.name if obj.cls else obj.tag}")
             raise PyRaise('AttributeError', f"object has no attribute '{name}'")
         if isinstance(obj, ModuleRef):
             return obj.get(name)
